@@ -7,6 +7,10 @@
       object loops emit below a key of the first object, list loops below an index) and
       `diff_paths_extend_general` (EVERY option set, both strategies, all documents):
       every hunk of `diffNode o m a b p` has `p` as a prefix of its path.
+  0c. `diffNode_paths_strict` (every option set, strict strategy, no hypothesis on the documents): the
+      sub-diff of two same-kind containers that are not a `mixedPair` (typed array node against a
+      plain `jsonArray`) lives STRICTLY below the path it is given; so `Jd.subAfter` (the end block
+      of Go's `diffRest`) does not touch it: `subAfter_diffNode_of_not_mixed`.
   1.  equal sub-documents are never mentioned: `equal_member_not_mentioned` (one key),
       `equal_subdoc_not_mentioned` / `diffM_equal_subdoc_not_mentioned` (any depth below keys);
       `hunk_below_keys`: the hunks below a key path are hunks of the sub-diff there.
@@ -159,7 +163,8 @@ theorem diff_paths_extend_all (o : Opts) (ho : dispatchTag o = .list) :
     rcases List.mem_append.1 hm with hm | hm
     · rcases List.mem_append.1 hm with hm | hm
       · exact ⟨s, by rw [(accHunk_path hm).1]; exact List.prefix_refl _⟩
-      · exact ⟨k, ihN _ h hm⟩
+      · obtain ⟨h0, hm0, hp0, _⟩ := mem_subAfter' hm
+        exact ⟨k, by rw [hp0]; exact ihN _ h0 hm0⟩
     · exact ihR p h hm
   · intro k s prev c R A x a' y b' _ _ hA hB hs ih p h hm
     rw [diffRest_cons] at hm
@@ -245,8 +250,10 @@ theorem diffRest_paths_general (o : Opts) (p : Path) :
               · rcases List.mem_append.1 hm with hm | hm
                 · rcases List.mem_append.1 hm with hm | hm
                   · exact accHunk_path' hm
-                  · exact (List.prefix_append _ _).trans
-                      (hok x List.mem_cons_self false y _ h hm)
+                  · obtain ⟨h0, hm0, hp0, _⟩ := mem_subAfter' hm
+                    rw [hp0]
+                    exact (List.prefix_append _ _).trans
+                      (hok x List.mem_cons_self false y _ h0 hm0)
                 · exact ih (a'.length + b'.length) (by omega) a' b' rfl hok' _ _ _ _ _ _ h hm
               · exact ih (a'.length + b'.length) (by omega) a' b' rfl hok' _ _ _ _ _ _ h hm
 
@@ -366,6 +373,169 @@ end
 theorem diff_paths_extend_general (o : Opts) (m : Bool) (a b : Json) (p : Path) :
     ∀ h ∈ diffNode o m a b p, p <+: h.path :=
   pathsOK_json o a m b p
+
+/-! ## 0c. strictly below: the sub-diff of two same-kind containers, and `subAfter` -/
+
+theorem lt_of_prefix_snoc {p l : Path} {e : PathElem} (h : (p ++ [e]) <+: l) : p.length < l.length := by
+  have := h.length_le
+  simp only [List.length_append, List.length_singleton] at this
+  omega
+
+theorem accHunk_path_lt {p : Path} {s : Nat} {prev : Json} {R A : List Json} {after : Json} {h : Hunk}
+    (hm : h ∈ accHunk p s prev R A after) : p.length < h.path.length := by
+  rw [(accHunk_path hm).1]; simp
+
+/-- every hunk of the cursor walk at `p` is addressed strictly below `p` (any options, any elements) -/
+theorem diffRest_paths_strict (o : Opts) (p : Path) :
+    ∀ (n : Nat) (a b : List Json), a.length + b.length = n →
+      ∀ (k s : Nat) (prev : Json) (c : List UInt64) (R A : List Json),
+        ∀ h ∈ diffRest o p k s prev a b c R A, p.length < h.path.length := by
+  intro n
+  induction n using Nat.strongRecOn with
+  | _ n ih =>
+    intro a b hn k s prev c R A h hm
+    cases a with
+    | nil =>
+      rw [diffRest_nilA] at hm
+      exact accHunk_path_lt hm
+    | cons x a' =>
+      cases b with
+      | nil =>
+        rw [diffRest_nilB _ _ _ _ _ _ _ _ _ (by simp)] at hm
+        exact accHunk_path_lt hm
+      | cons y b' =>
+        simp only [List.length_cons] at hn
+        rw [diffRest_cons] at hm
+        split at hm
+        · rcases List.mem_append.1 hm with hm | hm
+          · exact accHunk_path_lt hm
+          · exact ih (a'.length + b'.length) (by omega) a' b' rfl _ _ _ _ _ _ h hm
+        · split at hm
+          · exact ih ((x :: a').length + b'.length) (by simp; omega) (x :: a') b' rfl _ _ _ _ _ _
+              h hm
+          · split at hm
+            · exact ih (a'.length + (y :: b').length) (by simp; omega) a' (y :: b') rfl _ _ _ _ _
+                _ h hm
+            · split at hm
+              · rcases List.mem_append.1 hm with hm | hm
+                · rcases List.mem_append.1 hm with hm | hm
+                  · exact accHunk_path_lt hm
+                  · obtain ⟨h0, hm0, hp0, _⟩ := mem_subAfter' hm
+                    rw [hp0]
+                    exact lt_of_prefix_snoc (diff_paths_extend_general o false x y _ h0 hm0)
+                · exact ih (a'.length + b'.length) (by omega) a' b' rfl _ _ _ _ _ _ h hm
+              · exact ih (a'.length + b'.length) (by omega) a' b' rfl _ _ _ _ _ _ h hm
+
+theorem diffKvs_paths_strict (o : Opts) (m : Bool) (p : Path) (kvs' : List (String × Json)) :
+    ∀ (kvs : List (String × Json)), ∀ h ∈ diffKvs o m p kvs' kvs, p.length < h.path.length
+  | [], h, hm => by simp [DE.diffKvs_nil] at hm
+  | (k, v) :: r, h, hm => by
+    rw [DE.diffKvs_cons] at hm
+    rcases List.mem_append.1 hm with hm | hm
+    · split at hm
+      · exact lt_of_prefix_snoc (diff_paths_extend_general o m _ _ _ h hm)
+      · split at hm <;>
+        · simp only [List.mem_singleton] at hm
+          subst hm
+          simp
+    · exact diffKvs_paths_strict o m p kvs' r h hm
+
+theorem diffSetElems_paths_strict (o : Opts) (m : Bool) (p : Path) (ys : List Json) :
+    ∀ (xs : List Json),
+      ∀ kp ∈ diffSetElems o m p ys xs, ∀ d, kp.2 = SetPart.sub d → ∀ h ∈ d, p.length < h.path.length
+  | [], kp, hm, _, _, _, _ => by
+    rw [diffSetElems.eq_def] at hm
+    cases hm
+  | x :: r, kp, hm, d, hd, h, hh => by
+    have ih := diffSetElems_paths_strict o m p ys r
+    rw [diffSetElems.eq_def] at hm
+    simp only [] at hm
+    split at hm
+    · exact ih kp hm d hd h hh
+    · split at hm
+      · rcases List.mem_cons.1 hm with e | hm
+        · subst e; cases hd
+        · exact ih kp hm d hd h hh
+      · split at hm
+        · rcases List.mem_cons.1 hm with e | hm
+          · subst e
+            simp only [SetPart.sub.injEq] at hd
+            subst hd
+            exact lt_of_prefix_snoc (diff_paths_extend_general o m _ _ _ h hh)
+          · exact ih kp hm d hd h hh
+        · exact ih kp hm d hd h hh
+
+theorem dispatchTag_ne_raw (o : Opts) : dispatchTag o ≠ .raw := by
+  induction o with
+  | nil => simp [dispatchTag]
+  | cons e r ih => cases e <;> simp [dispatchTag, ih]
+
+theorem effTag_ne_raw (o : Opts) (t : Tag) : effTag o t ≠ .raw := by
+  cases t <;> simp [effTag, dispatchTag_ne_raw]
+
+theorem sameContainerType_arr (o : Opts) (t t' : Tag) (xs ys : List Json) :
+    sameContainerType o (.arr t xs) (.arr t' ys) = (effTag o t == effTag o t') := by
+  cases t <;> cases t' <;> simp [sameContainerType, Json.dispatch, effTag]
+
+/-- **the sub-diff of two same-kind containers that are not a `mixedPair` lives strictly below the
+    path it is given** (strict strategy, every option set, no hypothesis on the documents) -/
+theorem diffNode_paths_strict (o : Opts) {x y : Json} (hs : sameContainerType o x y = true)
+    (hnm : mixedPair x y = false) (q : Path) :
+    ∀ h ∈ diffNode o false x y q, q.length < h.path.length := by
+  intro h hm
+  cases x with
+  | obj kvs =>
+    cases y with
+    | obj kvs' =>
+      rw [DE.diffNode_obj_obj] at hm
+      rcases List.mem_append.1 hm with hm | hm
+      · exact diffKvs_paths_strict o false q kvs' kvs h hm
+      · obtain ⟨kv, _, rfl⟩ := List.mem_map.1 hm
+        simp
+    | arr t ys => cases t <;> simp [sameContainerType, Json.dispatch] at hs
+    | _ => simp [sameContainerType, Json.dispatch] at hs
+  | arr t xs =>
+    cases y with
+    | arr t' ys =>
+      rw [sameContainerType_arr, beq_iff_eq] at hs
+      have hb' : (if (t == Tag.raw) = true then Json.dispatch o (.arr t' ys) else .arr t' ys) =
+          .arr (effTag o t) ys := by
+        cases t <;> cases t' <;> simp_all [effTag, Json.dispatch, mixedPair]
+      rw [diffNode.eq_def] at hm
+      simp only [hb'] at hm
+      have hne := effTag_ne_raw o t
+      cases he : effTag o t with
+      | raw => exact absurd he hne
+      | list =>
+        simp only [he, Bool.false_eq_true, if_false] at hm
+        exact diffRest_paths_strict o q _ xs ys rfl _ _ _ _ _ _ h hm
+      | set =>
+        simp only [he, Bool.false_and, Bool.false_eq_true, if_false] at hm
+        rcases List.mem_append.1 hm with hm | hm
+        · obtain ⟨kp, hkp, hh⟩ := List.mem_flatMap.1 hm
+          split at hh
+          · next d hd => exact diffSetElems_paths_strict o false q _ xs kp (mem_ksort hkp) d hd h hh
+          · cases hh
+        · split at hm
+          · cases hm
+          · simp only [List.mem_singleton] at hm; subst hm; simp
+      | mset =>
+        simp only [he, Bool.false_and, Bool.false_eq_true, if_false] at hm
+        split at hm
+        · cases hm
+        · simp only [List.mem_singleton] at hm; subst hm; simp
+    | _ => cases t <;> simp [sameContainerType, Json.dispatch] at hs
+  | _ => simp [sameContainerType, Json.dispatch] at hs
+
+/-- so `subAfter` does not touch it -/
+theorem subAfter_diffNode_of_not_mixed (o : Opts) {x y : Json} (hs : sameContainerType o x y = true)
+    (hnm : mixedPair x y = false) (p : Path) (k : Int) (n : Bool) (nx : Json) :
+    subAfter p n nx (diffNode o false x y (p ++ [.idx k])) = diffNode o false x y (p ++ [.idx k]) := by
+  apply subAfter_of_paths
+  intro h hm
+  have := diffNode_paths_strict o hs hnm _ h hm
+  simpa using this
+
 
 /-! ## 1. equal sub-documents are never mentioned -/
 
